@@ -1,5 +1,6 @@
 pub mod closures;
 pub mod common;
+pub mod corpus;
 pub mod derive;
 pub mod determinism;
 pub mod evalorder;
@@ -24,6 +25,7 @@ use crate::drive::Family;
 pub fn all() -> Vec<Box<dyn Family>> {
     vec![
         Box::new(lattice::Lattice),
+        Box::new(corpus::Corpus),
         Box::new(text::strings()),
         Box::new(text::tokens()),
         Box::new(text::Ladders),
